@@ -2,7 +2,7 @@
 
     Proved, for every byte string as text and every optional default zone (no bound on anything):
     - soundness (C14_from_str_sound): whatever the conversion accepts is a list of labels - non-empty,
-      at most 62 bytes, without a dot or a byte above 128 - joined by dots, optionally followed by a
+      at most 62 bytes, without a dot, a control character, DEL, a backslash or a byte above 128 - joined by dots, optionally followed by a
       final dot (or the single text "."), and what is appended is exactly each label prefixed by its
       length, then the root byte, or the default zone when the text has no final dot; at most 253 bytes;
     - acceptance (C14_accepts_open, C14_accepts_closed): every such label list whose encoding fits
@@ -133,3 +133,18 @@ Proof.
   exact (proj1 (set_name_reads_back ls v sec l1 r x l2 n s' qls qt lA lN lR Hd Hnel Hbw Rd Hsec El Hno Hrun)).
 Qed.
 Print Assumptions C14_text_reads_back.
+
+(** the wire name written for a text (no default zone) is a name of the parser's policy - labels of at most 63 bytes without control
+    characters, DEL, dots or backslashes, read at offset 0 as exactly the labels of the text - so a question or record built from it
+    is not refused by the parser because of its name (before the repair a97c4c2 the conversion took control characters and backslashes) *)
+Theorem C14_accepted_text_is_policy_name : forall raw name w, copy_raw_name_from_str raw name None = Ok w ->
+  exists ls, Forall label_ok ls /\ w = raw ++ wire_of_labels ls /\ length (wire_of_labels ls) <= 253 /\
+             cname_l (wire_of_labels ls) 0 ls (length (wire_of_labels ls)) /\
+             (name = dotted ls \/ name = dots ls \/ (name = [46%N] /\ ls = [])).
+Proof. exact from_str_is_policy_name. Qed.
+Print Assumptions C14_accepted_text_is_policy_name.
+
+Example C14_refused_bytes :
+  raw_name_from_str [97; 92; 98]%N None = Err InvalidName /\ raw_name_from_str [97; 1; 98]%N None = Err InvalidName /\
+  raw_name_from_str [97; 127]%N None = Err InvalidName /\ raw_name_from_str [97; 128; 98]%N None = Ok [3; 97; 128; 98; 0]%N.
+Proof. repeat split; vm_compute; reflexivity. Qed.
